@@ -29,6 +29,20 @@ objs=[CellVolume(m)*v*dx + Circumradius(m)*v*ds + FacetArea(m)*v*ds + n[0]*v*ds 
 m1=mesh("triangle"); m2=mesh("triangle",2); V1=space(m1,"P",1); V2=space(m2,"P",2)
 u1,v1=TrialFunction(V1),TestFunction(V1); u2,v2=TrialFunction(V2),TestFunction(V2)
 objs=[inner(grad(u1),grad(v1))*dx, inner(grad(u2),grad(v2))*dx, u2*v2*ds]'''),
+    # same cell, degree and scheme, different polyset type (macro element) / different element variant:
+    # anything cached too coarsely across compilations shows up in the reverse and interleaved histories
+    _c("c12_iso_p1_mass_macro_polyset", '''
+m=mesh("triangle"); V=FunctionSpace(m,el("iso","triangle",1)); u,v=TrialFunction(V),TestFunction(V)
+objs=[u*v*dx]'''),
+    _c("c12_p1_mass_after_macro", '''
+m=mesh("triangle"); V=space(m,"P",1); u,v=TrialFunction(V),TestFunction(V); f=Coefficient(V)
+objs=[u*v*dx, f*v*ds]'''),
+    _c("c12_p3_equispaced", '''
+m=mesh("triangle"); V=FunctionSpace(m,el("P","triangle",3,lagrange_variant=basix.LagrangeVariant.equispaced)); u,v=TrialFunction(V),TestFunction(V)
+objs=[u*v*dx(degree=6)]'''),
+    _c("c12_p3_gll_warped", '''
+m=mesh("triangle"); V=FunctionSpace(m,el("P","triangle",3,lagrange_variant=basix.LagrangeVariant.gll_warped)); u,v=TrialFunction(V),TestFunction(V)
+objs=[u*v*dx(degree=6)]'''),
     _c("c12_expression_and_forms", '''
 m=mesh("triangle"); V=space(m,"P",2); f=Coefficient(V); g=Coefficient(V); v=TestFunction(V)
 objs=[f*g*v*dx, (grad(f)*g, np.array([[0.25,0.25],[0.5,0.125]]))]'''),
@@ -72,11 +86,11 @@ def run(v, tier, seed, g):
     cases = list(corpus.PINNED) + EXTRA + (corpus.random_cases(seed, 10 if tier == "quick" else 200))
     cases = [c for c in cases if "numba" not in c["code"]]
     seeds = [0, 1, 2, 3] if tier == "quick" else list(range(0, 12)) + [12345, 999983]
-    configs = [(s, "plain", "C") for s in seeds] + [(0, "objects_first", "C"), (1, "reverse", "C"), (2, "interleaved", "C"), (0, "twice", "C"),
+    configs = [(0, "isolated", "C"), (0, "isolated", "numba")] + [(s, "plain", "C") for s in seeds] + [(0, "objects_first", "C"), (1, "reverse", "C"), (2, "interleaved", "C"), (0, "twice", "C"),
                                                    (0, "plain", "numba"), (3, "objects_first", "numba")]
     procs = [(cfg, run_proc(cases, cfg[0], cfg[1], cfg[2])) for cfg in configs]
     res = collect(procs)
-    base = {lang: next(r for r in res if r["key"] == (0, "plain", lang)) for lang in ("C", "numba")}
+    base = {lang: next(r for r in res if r["key"] == (0, "isolated", lang)) for lang in ("C", "numba")}
     ncmp, ndiff = 0, 0
     differing = {}
     for r in res:
@@ -101,9 +115,10 @@ def run(v, tier, seed, g):
         code = next(c for c in cases if c["id"] == cid)
         s, mode, lang = keys[0]
         sub = [c for c in cases] if mode in ("reverse", "interleaved") else [code]
+        sub = [c for c in cases] if mode in ("reverse", "interleaved", "plain", "objects_first", "twice") else [code]
         pr = collect([((0, "plain", lang), run_proc([code], 0, "plain", lang, keep=[cid])), ((s, mode, lang), run_proc(sub, s, mode, lang, keep=[cid]))])
         t0, t1 = pr[0]["texts"].get(cid, ""), pr[1]["texts"].get(cid, "")
-        v.violation(f"c12-nondeterministic:{cid}", f"generated {lang} text of case {cid} differs between (PYTHONHASHSEED=0, plain) and (PYTHONHASHSEED={s}, {mode}): {first_diff(t0, t1)}",
+        v.violation(f"c12-nondeterministic:{cid}", f"generated {lang} text of case {cid} differs between (PYTHONHASHSEED=0, generated alone in a fresh process) and (PYTHONHASHSEED={s}, {mode}): {first_diff(t0, t1)}",
                     {"case": cid, "code": code["code"], "config": [s, mode, lang], "first_difference": first_diff(t0, t1), "other_configs": [list(k) for k in keys[:6]]})
     if not g["ok"] and not v.violations:
         v.violation("gate", "proof obligations no longer check: " + "; ".join(g["broken"]), {"broken": g["broken"]}, no_input=True)
@@ -111,7 +126,7 @@ def run(v, tier, seed, g):
                                                                           "subprocess runs of ffcx.compiler.compile_ufl_objects under different PYTHONHASHSEED and histories"],
            "programs": len(cases), "configurations": [list(c) for c in configs], "disagreements_checked": ncmp, "evaluations": ncmp, "distinct_nontrivial": len(cases) * (len(configs) - 2),
            "differing": ndiff,
-           "rule": "every case generated in one subprocess per configuration (hash seed x history: plain, unrelated UFL objects first, reverse order, another form compiled in between, same form twice; C and numba); digests compared with (seed 0, plain)",
+           "rule": "every case generated in one subprocess per configuration (hash seed x history: plain, unrelated UFL objects first, reverse order, another form compiled in between, same form twice; C and numba); digests compared with the text generated for the case alone in a fresh process (seed 0)",
            "axioms_under_property_theorems": g.get("axioms", [])}
     return v.finish("proof", cov, ["forms, seeds and histories sampled; proved: a sorted site is enumeration-independent, and every site found in ffcx/ is Sorted/OrderFree/ListDedup (finite, regenerated)",
                                    "UFL's own ordering functions (sort_elements, renumbering) are outside the scan"])
